@@ -581,7 +581,7 @@ class Program:
         if getattr(self, "_normalised", False):
             return
         self._normalised = True
-        from .inline import split_boolop_assignments, split_named_expressions, attributes_from_constant_getattr, thread_exit_flags, drop_self_assignments, loops_from_primed, _fold_constant_tests, split_tuple_assignments, comprehensions_from_append_loops, loops_from_leading_breaks, flags_to_breaks, _attr_alias_candidates, expand_attribute_aliases, inline_new_constants, new_constants, alpha_normalise, expand_condition_locals, inline_new_temps, inlined, loops_from_filtered_generators, loops_from_quantifiers, outline_reference_temps, split_conditional_expressions
+        from .inline import unroll_literal_loops, _boolean_ifexp_in_tests, split_boolop_assignments, split_named_expressions, attributes_from_constant_getattr, thread_exit_flags, drop_self_assignments, loops_from_primed, _fold_constant_tests, split_tuple_assignments, comprehensions_from_append_loops, loops_from_leading_breaks, flags_to_breaks, _attr_alias_candidates, expand_attribute_aliases, inline_new_constants, new_constants, alpha_normalise, expand_condition_locals, inline_new_temps, inlined, loops_from_filtered_generators, loops_from_quantifiers, outline_reference_temps, split_conditional_expressions
         anchor_names = frozenset(anchor_names)
         self.inline_anchors = anchor_names
 
@@ -618,6 +618,8 @@ class Program:
         self.normal_form_constants = {"globals": {k: sorted(v) for k, v in gl.items()}, "class_attrs": {k: sorted(v) for k, v in ca.items()}}
         for f in order:
             nf = split_named_expressions(f)
+            nf = unroll_literal_loops(nf)
+            nf = loops_from_quantifiers(nf)  # before the inliner: the predicate of any() / all() may be a helper call
             nf = inlined(self, nf, pred=pred)
             if getattr(nf, "inlined_from", None):
                 nf = drop_self_assignments(nf)
@@ -655,6 +657,7 @@ class Program:
             if nf is f:
                 continue
             if getattr(nf, "inlined_from", None):
+                _boolean_ifexp_in_tests(nf.node)  # `False if c else x` left behind by a ladder helper expanded in a test
                 _fold_constant_tests(nf.node)  # `t = True; if t:` left behind by an inlined predicate
                 ast.fix_missing_locations(nf.node)
             self.normal_form_log[f.qual] = {"inlined": list(getattr(nf, "inlined_from", [])), "renamed": dict(ren)}
